@@ -2,7 +2,9 @@ import Frp.Model.Backoff
 import Frp.Model.Watchdog
 import Frp.Model.Reconnect
 import Frp.Model.Dispatch
+import Frp.Model.Liveness
 import Frp.Props.C14Heal
+import Frp.Props.C14Teardown
 /-
   C14 — Dead peers are detected and tunnels heal themselves (partial: wall-clock behaviour and
   goroutine scheduling are sampled by the `wait` engine, not proved).
@@ -17,6 +19,14 @@ import Frp.Props.C14Heal
   Parts D, E (Frp/Props/C14Heal.lean): the end of a server session releases everything the session
           registered, for every interleaving, registrations in flight included; a (re-)login registers
           the configuration in force when it succeeds, for every history of reloads and outages.
+  Part G: which events refresh the liveness clocks (Frp/Model/Liveness.lean): under frp's strict policy
+          (only a verified Ping on the server, only a Pong without error on the client — read from the
+          source on every run) no other traffic, valid or not, moves the clock: a peer that keeps sending
+          NewProxy / CloseProxy / rejected pings, a server that keeps sending ReqWorkConn / NewProxyResp,
+          is detected within timeout + checker period; any other policy provably keeps a dead peer alive.
+  Part H (Frp/Props/C14Teardown.lean): the client's teardown (worker → pm.Close → Wrapper.Stop) reaches
+          close(doneCh) from every state, whatever phase the check goroutines are in, if the send channel
+          cannot fill up; FINDING: in frp as it is it does fill up with more than 100 proxies.
   Part F: the client's dispatcher in front of its watchdog (pkg/msg/handler.go, client/control.go
           registerMsgHandlers / handleReqWorkConn): with ReqWorkConn handled through AsyncHandler the
           read loop is never occupied, the watchdog sees every Pong when it is sent, a server that
@@ -923,6 +933,227 @@ example :
 
 end PartC
 
+section PartG
+open Watchdog
+
+/-! ## Part G — which events refresh the liveness clock (server/control.go handlePing & co, client/control.go handlePong & co) -/
+
+theorem lstep_closed (p : Liveness.Policy) (c : Cfg) (s : St) (t : Nat) (e : Liveness.Ev)
+    (h : s.closed.isSome = true) : Liveness.step p c s t e = s := by
+  cases e with
+  | beat v => cases v <;> simp [Liveness.step, h]
+  | other k => simp [Liveness.step, h]
+  | check => simp [Liveness.step, Watchdog.step, h]
+
+theorem lstep_strict_beat (p : Liveness.Policy) (hp : p.strict = true) (c : Cfg) (s : St) (t : Nat) (v : Bool) :
+    Liveness.step p c s t (.beat v) = Watchdog.step c s t (.beat v) := by
+  have he : p.early = false := by
+    simp only [Liveness.Policy.strict, Bool.and_eq_true, Bool.not_eq_true'] at hp; exact hp.1
+  cases v with
+  | true => rfl
+  | false => simp only [Liveness.step, Watchdog.step, he, Bool.false_eq_true, if_false]
+
+theorem lstep_strict_other (p : Liveness.Policy) (hp : p.strict = true) (c : Cfg) (s : St) (t k : Nat) :
+    Liveness.step p c s t (.other k) = s := by
+  have ho : p.others = [] := by
+    simp only [Liveness.Policy.strict, Bool.and_eq_true, List.isEmpty_iff] at hp; exact hp.2
+  simp only [Liveness.step, ho, List.contains_nil, Bool.false_eq_true, if_false]
+  split <;> rfl
+
+/-- **Only an accepted heartbeat counts.**  Under the strict policy (frp's, see `code_clock_strict`) the
+    watchdog's state after ANY history — valid pings, rejected pings, and any other control messages
+    in between — is the state of the bare watchdog on the history with the other traffic removed: no
+    NewProxy / CloseProxy / NatHole message (server), no ReqWorkConn / NewProxyResp / NatHoleResp
+    (client) ever moves the clock.  All theorems of Part B therefore hold whatever else the peer sends. -/
+theorem strict_refines (p : Liveness.Policy) (hp : p.strict = true) (c : Cfg) :
+    ∀ (es : List (Nat × Liveness.Ev)) (s : St), Liveness.run p c s es = Watchdog.run c s (Liveness.proj es) := by
+  intro es
+  induction es with
+  | nil => intro s; rfl
+  | cons x xs ih =>
+    intro s
+    obtain ⟨t, e⟩ := x
+    cases e with
+    | beat v => simp only [Liveness.run, Liveness.proj, Watchdog.run, lstep_strict_beat p hp]; exact ih _
+    | other k => simp only [Liveness.run, Liveness.proj, lstep_strict_other p hp]; exact ih _
+    | check => simp only [Liveness.run, Liveness.proj, Watchdog.run, Liveness.step]; exact ih _
+
+theorem proj_silent (es : List (Nat × Liveness.Ev)) (h : Liveness.noValidBeat es) : silent (Liveness.proj es) := by
+  induction es with
+  | nil => intro x hx; cases hx
+  | cons y ys ih =>
+    obtain ⟨t, e⟩ := y
+    have ht : Liveness.noValidBeat ys := fun x hx => h x (List.mem_cons_of_mem _ hx)
+    cases e with
+    | other k => exact ih ht
+    | check =>
+      intro x hx
+      rcases List.mem_cons.1 hx with hh | hh
+      · subst hh; intro h2; cases h2
+      · exact ih ht x hh
+    | beat v =>
+      intro x hx
+      rcases List.mem_cons.1 hx with hh | hh
+      · subst hh
+        intro h2
+        have : v = true := by simpa using h2
+        subst this
+        exact h (t, .beat true) List.mem_cons_self rfl
+      · exact ih ht x hh
+
+/-- **Other traffic does not postpone detection.**  Strict policy, checker enabled and firing at least
+    every `P`: if the peer sends no VALID heartbeat — but any number of rejected ones and any other
+    messages, at any rate — and the history reaches a check later than `last + T`, the session is closed
+    for liveness at a time in `(last + T, last + T + P]` (server: `closeOnBad = false`; on the client a
+    Pong carrying an error closes even earlier, hence the `noBad` hypothesis there). -/
+theorem busy_peer_detected (p : Liveness.Policy) (hp : p.strict = true) (c : Cfg) (P : Nat) (hen : c.enabled = true)
+    (es : List (Nat × Liveness.Ev)) (s : St) (pc : Nat) (h0 : s.closed = none)
+    (hs : Liveness.noValidBeat es) (hb : c.closeOnBad = true → noBad (Liveness.proj es))
+    (hreg : checksRegular P pc (Liveness.proj es) = true) (hpc : pc ≤ s.last + c.T)
+    (hex : ∃ x ∈ Liveness.proj es, x.2 = .check ∧ s.last + c.T < x.1) :
+    ∃ t, (Liveness.run p c s es).closed = some (t, .timeout) ∧ (Liveness.run p c s es).last = s.last ∧
+      s.last + c.T < t ∧ t ≤ s.last + c.T + P := by
+  rw [strict_refines p hp]
+  exact detect c P hen _ s pc h0 (proj_silent es hs) hb hreg hpc hex
+
+/-- … and never causes a closure: a peer whose valid heartbeats are at most `I ≤ T` apart stays up
+    whatever it sends in between -/
+theorem busy_peer_alive (p : Liveness.Policy) (hp : p.strict = true) (c : Cfg) (I : Nat) (hI : I ≤ c.T)
+    (es : List (Nat × Liveness.Ev)) (s : St) (h0 : s.closed = none)
+    (hb : c.closeOnBad = true → noBad (Liveness.proj es)) (hf : fed I s.last (Liveness.proj es) = true) :
+    (Liveness.run p c s es).closed = none := by
+  rw [strict_refines p hp]
+  exact alive_of_fed c I hI _ s h0 hb hf
+
+/-- **Any other policy breaks the clause.**  Whatever the policy counts as a sign of life keeps the
+    session open: if every event is at most `I ≤ T` after the most recent REFRESHING one (`fedBy`), no
+    history ends in a closure — with `early` the rejected pings of a peer without the key are enough,
+    with a kind in `others` a stream of CloseProxy for unknown names / of ReqWorkConn is. -/
+theorem lenient_never_closes (p : Liveness.Policy) (c : Cfg) (hc : c.closeOnBad = false) (I : Nat) (hI : I ≤ c.T) :
+    ∀ (es : List (Nat × Liveness.Ev)) (s : St), s.closed = none → Liveness.fedBy p I s.last es = true →
+      (Liveness.run p c s es).closed = none := by
+  intro es
+  induction es with
+  | nil => intro s h0 _; exact h0
+  | cons x xs ih =>
+    intro s h0 hf
+    obtain ⟨u, e⟩ := x
+    simp only [Liveness.fedBy, Bool.and_eq_true, decide_eq_true_eq] at hf
+    simp only [Liveness.run]
+    cases e with
+    | beat v =>
+      cases v with
+      | true =>
+        have hs : Liveness.step p c s u (.beat true) = { s with last := u } := by simp [Liveness.step, h0]
+        rw [hs]; exact ih _ h0 (by simpa [Liveness.refreshes] using hf.2)
+      | false =>
+        cases he : p.early with
+        | true =>
+          have hs : Liveness.step p c s u (.beat false) = { s with last := u } := by
+            simp [Liveness.step, h0, he, hc]
+          rw [hs]; exact ih _ h0 (by simpa [Liveness.refreshes, he] using hf.2)
+        | false =>
+          have hs : Liveness.step p c s u (.beat false) = s := by simp [Liveness.step, h0, he, hc]
+          rw [hs]; exact ih _ h0 (by simpa [Liveness.refreshes, he] using hf.2)
+    | other k =>
+      by_cases hk : k ∈ p.others
+      · have hs : Liveness.step p c s u (.other k) = { s with last := u } := by simp [Liveness.step, h0, hk]
+        rw [hs]; exact ih _ h0 (by simpa [Liveness.refreshes, hk] using hf.2)
+      · have hs : Liveness.step p c s u (.other k) = s := by simp [Liveness.step, h0, hk]
+        rw [hs]; exact ih _ h0 (by simpa [Liveness.refreshes, hk] using hf.2)
+    | check =>
+      have hs : Liveness.step p c s u .check = s := by
+        simp only [Liveness.step, Watchdog.step, h0, Option.isSome_none, Bool.false_eq_true, if_false]
+        rw [if_neg]
+        intro hcc; omega
+      rw [hs]; exact ih _ h0 (by simpa [Liveness.refreshes] using hf.2)
+
+/-- a peer that lost the key / a server that stopped answering, in numbers (ms, T = 1 s, checks every
+    second): one accepted heartbeat at 100, then only rejected pings and CloseProxy (kind 5) -/
+def busyDeadPeer : List (Nat × Liveness.Ev) :=
+  [(100, .beat true), (600, .other 5), (1000, .check), (1100, .beat false), (1600, .other 5), (2000, .check),
+   (2100, .beat false), (2600, .other 5), (3000, .check), (3100, .beat false), (3600, .other 5), (4000, .check)]
+
+/-- **Witness: the policy decides.**  On `busyDeadPeer` the strict policy closes the session at the
+    check of t = 2000 (the first one later than 100 + 1000); a policy that lets CloseProxy refresh, or
+    one that stores the clock before the ping is verified, still has it open at t = 4000 with the
+    clock at 3600 / 3100. -/
+theorem lenient_witness :
+    let c := serverCfg 1 1000
+    Liveness.noValidBeat (busyDeadPeer.drop 1) ∧
+    (Liveness.run {} c { last := 0 } busyDeadPeer).closed = some (2000, .timeout) ∧
+    Liveness.run { others := [5] } c { last := 0 } busyDeadPeer = { last := 3600, closed := none } ∧
+    Liveness.run { early := true } c { last := 0 } busyDeadPeer = { last := 3100, closed := none } := by
+  refine ⟨?_, by decide, by decide, by decide⟩
+  intro x hx
+  revert x
+  decide
+
+/-! ### tie to the source (translate/gen_sessfacts_clock.go, regenerated on every run) -/
+
+/-- kinds = places in registerMsgHandlers; the heartbeat message itself is not an "other" kind -/
+def policyOf (refresh : List (String × Bool)) (beat : String) (early : Bool) : Liveness.Policy :=
+  { early := early,
+    others := ((List.range refresh.length).zip refresh).filterMap
+      (fun x => if x.2.2 && x.2.1 != beat then some x.1 else none) }
+
+/-- the server's policy as the code has it: which handlers of server/control.go may store `lastPing`,
+    and whether handlePing stores it before the Ping plugins and VerifyPing have accepted the ping -/
+def codeServerPolicy : Liveness.Policy :=
+  policyOf Gen.SessFacts.serverClockRefresh "Ping" Gen.SessFacts.serverBeatEarly
+
+/-- the client's: which handlers of client/control.go may store `lastPong`, and whether handlePong
+    stores it before its `Error != ""` branch -/
+def codeClientPolicy : Liveness.Policy :=
+  policyOf Gen.SessFacts.clientClockRefresh "Pong" Gen.SessFacts.clientBeatEarly
+
+/-- the kind of a message type on either side (its place in registerMsgHandlers) -/
+def kindIn (refresh : List (String × Bool)) (name : String) : Nat :=
+  (refresh.findIdx? (fun x => x.1 == name)).getD refresh.length
+
+/-- in the source as it is: `lastPing` is stored by NewControl and by handlePing only, after
+    pluginManager.Ping and VerifyPing and after the rejection branch; `lastPong` by NewControl and by
+    handlePong only, after the `Error != ""` branch; no other function of either package stores them -/
+theorem code_clock_strict :
+    codeServerPolicy.strict = true ∧ codeClientPolicy.strict = true ∧
+    Gen.SessFacts.serverBeatRefreshes = true ∧ Gen.SessFacts.clientBeatRefreshes = true ∧
+    Gen.SessFacts.serverBeatChecks = ["VerifyPing", "pluginManager.Ping"] ∧
+    Gen.SessFacts.clientBeatChecks = ["Error"] ∧
+    Gen.SessFacts.serverClockStray = [] ∧ Gen.SessFacts.clientClockStray = [] ∧
+    kindIn Gen.SessFacts.clientClockRefresh "ReqWorkConn" = Dispatch.reqKind := by
+  decide +kernel
+
+/-- `busy_peer_detected` for the server's policy and watchdog configuration found in the source -/
+theorem busy_peer_detected_code (timeoutSec : Int) (u P : Nat) (hen : 0 < timeoutSec)
+    (es : List (Nat × Liveness.Ev)) (s : St) (pc : Nat) (h0 : s.closed = none) (hs : Liveness.noValidBeat es)
+    (hreg : checksRegular P pc (Liveness.proj es) = true) (hpc : pc ≤ s.last + (serverCfg timeoutSec u).T)
+    (hex : ∃ x ∈ Liveness.proj es, x.2 = .check ∧ s.last + (serverCfg timeoutSec u).T < x.1) :
+    ∃ t, (Liveness.run codeServerPolicy (serverCfg timeoutSec u) s es).closed = some (t, .timeout) ∧
+      s.last + (serverCfg timeoutSec u).T < t ∧ t ≤ s.last + (serverCfg timeoutSec u).T + P := by
+  obtain ⟨t, h1, _, h2, h3⟩ :=
+    busy_peer_detected codeServerPolicy code_clock_strict.1 (serverCfg timeoutSec u) P
+      ((server_enabled_iff timeoutSec u).2 hen) es s pc h0 hs (fun h => by simp [serverCfg] at h) hreg hpc hex
+  exact ⟨t, h1, h2, h3⟩
+
+/-! ### non-vacuity -/
+
+-- `busy_peer_detected`: its hypotheses are met by `busyDeadPeer` after the accepted heartbeat
+example :
+    let c := serverCfg 1 1000
+    let es := busyDeadPeer.drop 1
+    checksRegular 1000 0 (Liveness.proj es) = true ∧ (0 : Nat) ≤ 100 + c.T ∧
+      (∃ x ∈ Liveness.proj es, x.2 = .check ∧ 100 + c.T < x.1) ∧
+      (Liveness.run {} c { last := 100 } es).closed = some (2000, .timeout) := by
+  refine ⟨by decide, by decide, ⟨(2000, .check), by decide, rfl, by decide⟩, by decide⟩
+
+-- `lenient_never_closes`: `busyDeadPeer` is fed (I = 1000 ≤ T) under the two lenient policies, not under the strict one
+example :
+    Liveness.fedBy { others := [5] } 1000 0 busyDeadPeer = true ∧
+    Liveness.fedBy { early := true } 1000 0 busyDeadPeer = true ∧
+    Liveness.fedBy {} 1000 0 busyDeadPeer = false := by decide
+
+end PartG
+
 section PartF
 open Dispatch
 
@@ -997,13 +1228,20 @@ theorem dstep_read_waiting (c : Dispatch.Cfg) (s : Dispatch.St) (t w : Nat) (hr 
 theorem isSome_false_of {α : Type} {o : Option α} (h : ¬ o.isSome = true) : o.isSome = false := by
   simpa using h
 
-theorem handle_wd_reqWork (c : Dispatch.Cfg) (s : Dispatch.St) (t : Nat) : (handle c s t .reqWork).wd = s.wd := by
-  simp only [handle]; split <;> rfl
+theorem handle_wd_reqWork (c : Dispatch.Cfg) (hp : c.policy.strict = true) (s : Dispatch.St) (t : Nat) :
+    (handle c s t .reqWork).wd = s.wd := by
+  simp only [handle]; split <;> exact lstep_strict_other c.policy hp c.wd s.wd t _
+
+theorem handle_wd_other (c : Dispatch.Cfg) (hp : c.policy.strict = true) (s : Dispatch.St) (t k : Nat) :
+    (handle c s t (.other k)).wd = s.wd := lstep_strict_other c.policy hp c.wd s.wd t k
+
+theorem handle_wd_pong (c : Dispatch.Cfg) (hp : c.policy.strict = true) (s : Dispatch.St) (t : Nat) (v : Bool) :
+    (handle c s t (.pong v)).wd = Watchdog.step c.wd s.wd t (.beat v) := lstep_strict_beat c.policy hp c.wd s.wd t v
 
 theorem handle_inbox (c : Dispatch.Cfg) (s : Dispatch.St) (t : Nat) (m : Msg) : (handle c s t m).inbox = s.inbox := by
   cases m with
   | pong v => rfl
-  | other => rfl
+  | other k => rfl
   | reqWork => simp only [handle]; split <;> rfl
 
 /-! ### every interleaving: the watchdog sees exactly the Pongs that reach `handlePong` -/
@@ -1015,8 +1253,9 @@ theorem wstep_check_last (c : Watchdog.Cfg) (s : Watchdog.St) (t : Nat) :
   · rfl
   · split <;> rfl
 
-/-- **The watchdog state on any schedule is the bare watchdog run on the delivered heartbeats.** -/
-theorem delivered_sound (c : Dispatch.Cfg) : ∀ (ls : List (Nat × Lbl)) (s : Dispatch.St),
+/-- **The watchdog state on any schedule is the bare watchdog run on the delivered heartbeats**
+    (strict policy: no other handler stores lastPong). -/
+theorem delivered_sound (c : Dispatch.Cfg) (hp : c.policy.strict = true) : ∀ (ls : List (Nat × Lbl)) (s : Dispatch.St),
     (Dispatch.run c s ls).wd = Watchdog.run c.wd s.wd (delivered c s ls) := by
   intro ls
   induction ls with
@@ -1043,17 +1282,18 @@ theorem delivered_sound (c : Dispatch.Cfg) : ∀ (ls : List (Nat × Lbl)) (s : D
           | cons m rest =>
             rw [dstep_read_cons c s t m rest hc' hr hi]
             cases m with
-            | pong v => rfl
-            | other => rfl
-            | reqWork => rw [handle_wd_reqWork]; rfl
+            | pong v => rw [handle_wd_pong c hp]; rfl
+            | other k => rw [handle_wd_other c hp]; rfl
+            | reqWork => rw [handle_wd_reqWork c hp]; rfl
 
 /-- **No false positive on any schedule, whatever the registration mode.**  If the session was
     closed for liveness at `t`, the checker is on and more than `T` has passed since the last valid
     Pong that reached `handlePong`. -/
-theorem close_sound_dispatch (c : Dispatch.Cfg) (ls : List (Nat × Lbl)) (s : Dispatch.St) (t : Nat)
+theorem close_sound_dispatch (c : Dispatch.Cfg) (hp : c.policy.strict = true) (ls : List (Nat × Lbl))
+    (s : Dispatch.St) (t : Nat)
     (h0 : s.wd.closed = none) (h : (Dispatch.run c s ls).wd.closed = some (t, .timeout)) :
     c.wd.enabled = true ∧ (Dispatch.run c s ls).wd.last + c.wd.T < t := by
-  rw [delivered_sound] at h ⊢
+  rw [delivered_sound c hp] at h ⊢
   exact close_sound c.wd _ s.wd t h0 h
 
 /-! ### the code's registration: the read loop is never occupied -/
@@ -1074,7 +1314,7 @@ theorem async_step_idle (c : Dispatch.Cfg) (ha : c.asyncReq = true) (s : Dispatc
         rw [dstep_read_cons c s t m rest hc' h hi]
         cases m with
         | pong v => exact h
-        | other => exact h
+        | other k => exact h
         | reqWork => simp only [handle, ha, if_true]; exact h
 
 /-- **With ReqWorkConn registered through `AsyncHandler` the read loop is never inside a handler
@@ -1105,8 +1345,8 @@ theorem proj_cons (t : Nat) (l : Lbl) (ls : List (Nat × Lbl)) : proj ((t, l) ::
 theorem settle_nil (c : Dispatch.Cfg) (t : Nat) (s : Dispatch.St) (h : s.inbox = []) : settle c t s = s := by
   simp only [settle, h, List.length_nil, reads]
 
-theorem estep_async (c : Dispatch.Cfg) (ha : c.asyncReq = true) (s : Dispatch.St) (t : Nat) (l : Lbl)
-    (hs : Settled s) :
+theorem estep_async (c : Dispatch.Cfg) (ha : c.asyncReq = true) (hp : c.policy.strict = true)
+    (s : Dispatch.St) (t : Nat) (l : Lbl) (hs : Settled s) :
     Settled (settle c t (Dispatch.step c s t l)) ∧
       (settle c t (Dispatch.step c s t l)).wd = Watchdog.run c.wd s.wd (proj [(t, l)]) := by
   obtain ⟨hr, hi⟩ := hs
@@ -1134,10 +1374,10 @@ theorem estep_async (c : Dispatch.Cfg) (ha : c.asyncReq = true) (s : Dispatch.St
         exact dstep_read_cons c _ t m [] hc' hr rfl
       rw [h2]
       cases m with
-      | pong v => exact ⟨⟨hr, rfl⟩, rfl⟩
-      | other => exact ⟨⟨hr, rfl⟩, rfl⟩
+      | pong v => exact ⟨⟨hr, rfl⟩, by rw [handle_wd_pong c hp]; rfl⟩
+      | other k => exact ⟨⟨hr, rfl⟩, by rw [handle_wd_other c hp]; rfl⟩
       | reqWork =>
-        simp only [handle, ha, if_true]
+        simp only [handle, ha, if_true, lstep_strict_other _ hp]
         exact ⟨⟨hr, rfl⟩, rfl⟩
 
 /-- **With the code's registration the dispatcher is transparent.**  For every history of what the
@@ -1145,7 +1385,7 @@ theorem estep_async (c : Dispatch.Cfg) (ha : c.asyncReq = true) (s : Dispatch.St
     idle for ever, and of checker firings: a prompt read loop keeps the watchdog in exactly the state
     of the bare watchdog model fed with the Pongs at the moments they were sent.  Work connections do
     not appear on the right-hand side. -/
-theorem async_refines_watchdog (c : Dispatch.Cfg) (ha : c.asyncReq = true) :
+theorem async_refines_watchdog (c : Dispatch.Cfg) (ha : c.asyncReq = true) (hp : c.policy.strict = true) :
     ∀ (ls : List (Nat × Lbl)) (s : Dispatch.St), Settled s →
       Settled (erun c s ls) ∧ (erun c s ls).wd = Watchdog.run c.wd s.wd (proj ls) := by
   intro ls
@@ -1154,7 +1394,7 @@ theorem async_refines_watchdog (c : Dispatch.Cfg) (ha : c.asyncReq = true) :
   | cons x xs ih =>
     intro s hs
     obtain ⟨t, l⟩ := x
-    obtain ⟨h1, h2⟩ := estep_async c ha s t l hs
+    obtain ⟨h1, h2⟩ := estep_async c ha hp s t l hs
     obtain ⟨h3, h4⟩ := ih _ h1
     simp only [erun]
     refine ⟨h3, ?_⟩
@@ -1164,12 +1404,52 @@ theorem async_refines_watchdog (c : Dispatch.Cfg) (ha : c.asyncReq = true) :
     ReqWorkConn handled asynchronously: if the Pongs the server sends are valid and no event is later
     than `I ≤ T` after the most recent one (`fed`, as in `alive_of_fed`), the session stays open for
     the whole history — any number of ReqWorkConn, none of them ever released, included. -/
-theorem fed_never_torn_down (c : Dispatch.Cfg) (ha : c.asyncReq = true) (I : Nat) (hI : I ≤ c.wd.T)
+theorem fed_never_torn_down (c : Dispatch.Cfg) (ha : c.asyncReq = true) (hp : c.policy.strict = true)
+    (I : Nat) (hI : I ≤ c.wd.T)
     (ls : List (Nat × Lbl)) (s : Dispatch.St) (hs : Settled s) (h0 : s.wd.closed = none)
     (hb : c.wd.closeOnBad = true → noBad (proj ls)) (hf : fed I s.wd.last (proj ls) = true) :
     (erun c s ls).wd.closed = none := by
-  rw [(async_refines_watchdog c ha ls s hs).2]
+  rw [(async_refines_watchdog c ha hp ls s hs).2]
   exact alive_of_fed c.wd I hI _ _ h0 hb hf
+
+/-- **A server that stops answering Pings is detected whatever else it still sends.**  Code's
+    registration and strict policy, prompt read loop, checker enabled and firing at least every `P`: if
+    the server sends no valid Pong (and none carrying an error, which closes at once) — but any stream of
+    ReqWorkConn, NewProxyResp, NatHoleResp, with work connections used, closed or idle — and the history
+    reaches a check later than `lastPong + T`, the session is closed for liveness within
+    `(lastPong + T, lastPong + T + P]`. -/
+theorem busy_server_detected (c : Dispatch.Cfg) (ha : c.asyncReq = true) (hp : c.policy.strict = true)
+    (P : Nat) (hen : c.wd.enabled = true) (ls : List (Nat × Lbl)) (s : Dispatch.St) (pc : Nat)
+    (hs : Settled s) (h0 : s.wd.closed = none) (hsil : silent (proj ls)) (hb : noBad (proj ls))
+    (hreg : checksRegular P pc (proj ls) = true) (hpc : pc ≤ s.wd.last + c.wd.T)
+    (hex : ∃ x ∈ proj ls, x.2 = .check ∧ s.wd.last + c.wd.T < x.1) :
+    ∃ t, (erun c s ls).wd.closed = some (t, .timeout) ∧ s.wd.last + c.wd.T < t ∧ t ≤ s.wd.last + c.wd.T + P := by
+  rw [(async_refines_watchdog c ha hp ls s hs).2]
+  obtain ⟨t, h1, _, h2, h3⟩ := detect c.wd P hen (proj ls) s.wd pc h0 hsil (fun _ => hb) hreg hpc hex
+  exact ⟨t, h1, h2, h3⟩
+
+/-- a server whose Pongs stopped after the first one while user connections keep making it send
+    ReqWorkConn (ms; interval 1 s, timeout 3 s) -/
+def busySilentServer : List (Nat × Lbl) :=
+  [(10, .send (.pong true)), (700, .send .reqWork), (1000, .check), (1700, .send .reqWork), (2000, .check),
+   (2700, .send .reqWork), (3000, .check), (3700, .send .reqWork), (4000, .check), (4700, .send (.other 1)),
+   (5000, .check), (5700, .send .reqWork), (6000, .check), (6700, .send .reqWork), (7000, .check)]
+
+/-- **Witness: on the client too the policy decides.**  On `busySilentServer` the code's (strict) policy
+    closes the session at the check of t = 4000 — the first later than 10 + 3000 —, a policy under which
+    handleReqWorkConn and handleNewProxyResp store lastPong as well still has it open at t = 7000 with
+    the clock at 6700. -/
+theorem lenient_client_witness :
+    let wd := Watchdog.clientCfg 1 3 1000
+    let strict := erun { wd := wd, asyncReq := true } {} busySilentServer
+    let lenient := erun { wd := wd, asyncReq := true, policy := { others := [reqKind, 1] } } {} busySilentServer
+    silent ((proj busySilentServer).drop 1) ∧
+    strict.wd.closed = some (4000, .timeout) ∧ strict.wd.last = 10 ∧
+    lenient.wd.closed = none ∧ lenient.wd.last = 6700 := by
+  refine ⟨?_, by decide, by decide, by decide, by decide⟩
+  intro x hx
+  revert x
+  decide
 
 /-! ### a plain ReqWorkConn handler: an idle work connection starves the watchdog -/
 
@@ -1245,14 +1525,14 @@ theorem checksOf_silent (ls : List (Nat × Lbl)) : silent (checksOf ls) ∧ noBa
     checker fires at least every `P` and the history reaches a check later than `lastPong + T`, the
     session is closed for liveness within `(lastPong + T, lastPong + T + P]` — for EVERY sequence of
     Pongs the server sends meanwhile. -/
-theorem inline_starves (c : Dispatch.Cfg) (P : Nat) (hen : c.wd.enabled = true) (w : Nat)
+theorem inline_starves (c : Dispatch.Cfg) (hp : c.policy.strict = true) (P : Nat) (hen : c.wd.enabled = true) (w : Nat)
     (ls : List (Nat × Lbl)) (s : Dispatch.St) (pc : Nat) (hr : s.reader = .waiting w)
     (hn : ∀ x ∈ ls, x.2 ≠ .release w) (h0 : s.wd.closed = none)
     (hreg : checksRegular P pc (checksOf ls) = true) (hpc : pc ≤ s.wd.last + c.wd.T)
     (hex : ∃ x ∈ checksOf ls, x.2 = .check ∧ s.wd.last + c.wd.T < x.1) :
     ∃ t, (Dispatch.run c s ls).wd.closed = some (t, .timeout) ∧
       s.wd.last + c.wd.T < t ∧ t ≤ s.wd.last + c.wd.T + P := by
-  rw [delivered_sound, (blocked_delivers_nothing c w ls s hr hn).2.2]
+  rw [delivered_sound c hp, (blocked_delivers_nothing c w ls s hr hn).2.2]
   obtain ⟨t, h1, _, h2, h3⟩ :=
     detect c.wd P hen (checksOf ls) s.wd pc h0 (checksOf_silent ls).1 (fun _ => (checksOf_silent ls).2) hreg hpc hex
   exact ⟨t, h1, h2, h3⟩
@@ -1304,8 +1584,20 @@ theorem code_client_dispatch :
 theorem fed_never_torn_down_code (iv tmo : Int) (u I : Nat) (hI : I ≤ (Watchdog.clientCfg iv tmo u).T)
     (ls : List (Nat × Lbl)) (s : Dispatch.St) (hs : Settled s) (h0 : s.wd.closed = none)
     (hb : noBad (proj ls)) (hf : fed I s.wd.last (proj ls) = true) :
-    (erun { wd := Watchdog.clientCfg iv tmo u, asyncReq := codeReqAsync } s ls).wd.closed = none :=
-  fed_never_torn_down _ code_client_dispatch.1 I hI ls s hs h0 (fun _ => hb) hf
+    (erun { wd := Watchdog.clientCfg iv tmo u, asyncReq := codeReqAsync, policy := codeClientPolicy } s ls).wd.closed = none :=
+  fed_never_torn_down _ code_client_dispatch.1 code_clock_strict.2.1 I hI ls s hs h0 (fun _ => hb) hf
+
+/-- `busy_server_detected` for the registration and the policy found in the source -/
+theorem busy_server_detected_code (iv tmo : Int) (u P : Nat) (hiv : 0 < iv) (htmo : 0 < tmo)
+    (ls : List (Nat × Lbl)) (s : Dispatch.St) (pc : Nat)
+    (hs : Settled s) (h0 : s.wd.closed = none) (hsil : silent (proj ls)) (hb : noBad (proj ls))
+    (hreg : checksRegular P pc (proj ls) = true) (hpc : pc ≤ s.wd.last + (Watchdog.clientCfg iv tmo u).T)
+    (hex : ∃ x ∈ proj ls, x.2 = .check ∧ s.wd.last + (Watchdog.clientCfg iv tmo u).T < x.1) :
+    ∃ t, (erun { wd := Watchdog.clientCfg iv tmo u, asyncReq := codeReqAsync, policy := codeClientPolicy } s ls).wd.closed
+        = some (t, .timeout) ∧
+      s.wd.last + (Watchdog.clientCfg iv tmo u).T < t ∧ t ≤ s.wd.last + (Watchdog.clientCfg iv tmo u).T + P :=
+  busy_server_detected _ code_client_dispatch.1 code_clock_strict.2.1 P
+    ((client_enabled_iff iv tmo u).2 ⟨hiv, htmo⟩) ls s pc hs h0 hsil hb hreg hpc hex
 
 /-! ### non-vacuity -/
 
